@@ -958,6 +958,26 @@ pub fn c09(v: &View, out: &mut Vec<String>) {
             }
         }
     }
+    // bijection: at one offset there are never more 'missing expected X' errors than zero-width
+    // X tokens (one error may cover several virtual ')' of one unwinding); a surplus error is a
+    // diagnostic that survived from lexing that was rolled back
+    for (i, e) in v.errors.iter().enumerate() {
+        let Some(sym) = expected_symbol(e.error_kind()) else { continue };
+        let o = e.at_byte_offset();
+        if v.errors[..i].iter().any(|p| p.error_kind() == e.error_kind() && p.at_byte_offset() == o) {
+            continue; // counted at the first of them
+        }
+        let n_err = v.errors.iter().filter(|p| p.error_kind() == e.error_kind() && p.at_byte_offset() == o).count();
+        let n_tok = v.toks.iter().filter(|t| t.ty == sym && t.start == o && t.end == o).count();
+        if n_err > n_tok && n_tok > 0 {
+            out.push(format!("anchor.more-errors-than-tokens:{:?}", e.error_kind()));
+        }
+    }
+    // a diagnostic raised between a checkpoint and the rollback to it has survived speculative
+    // lexing (the error list is not rolled back)
+    if v.res.verif.rollbacks_with_new_errors > 0 {
+        out.push("anchor.error-survived-rollback".to_string());
+    }
     for t in &v.toks {
         if t.start == t.end
             && matches!(
